@@ -222,16 +222,17 @@ Section Progs2.
     apply PC_loc'. intros g. destruct (r_fhead (grec g r)); cbn [fst]; auto with cdb.
   Qed.
   Lemma pc_hp_gfree r s : PC f (hp_gfree r s).
-  Proof. unfold hp_gfree. apply PC_loc'. intros g. cbn [fst]. apply qS_qG. eapply qS_trans; [apply qS_snext_set|apply qS_upd_rec; kp]. Qed.
+  Proof.
+    unfold hp_gfree. apply PC_xbind; [pc2|intros _]. apply PC_loc'. intros g. cbn [fst]. apply qS_qG.
+    eapply qS_trans; [apply qS_snext_set|apply qS_upd_rec; kp].
+  Qed.
 
   Lemma pc_free_gblocks c : FHp <> f -> forall fuel p, PC f (free_gblocks c fuel p).
   Proof. intros Hne. induction fuel as [|fuel IH]; intros [b|]; cbn [free_gblocks]; pc2; try apply pc_hp_free; auto. Qed.
   Lemma pc_hp_clear c r det : qE f det -> PC f (hp_clear c r det).
   Proof.
     intros Hd. destruct (fl_cases f) as [Ef|Ef]; [apply PC_sp; now constructor|]. unfold hp_clear. pc2.
-    - apply PC_emit'. exact Hd.
-    - apply pc_free_gblocks. congruence.
-    - apply pc_free_gblocks. congruence.
+    all: try (apply PC_emit'; exact Hd). all: try (apply pc_free_gblocks; congruence).
   Qed.
 
   Lemma pc_rt_init c r : PC f (rt_init c r).
@@ -292,8 +293,4 @@ Section Progs2.
   Qed.
   Lemma pc_run_ops c t : forall os L, PC f (run_ops c t L os).
   Proof. induction os as [|o os IH]; intros L; cbn [run_ops]; [apply PC_ret'|]. apply PC_xbind; [apply pc_run_op|intros L'; apply IH]. Qed.
-  Lemma pc_thread c t os : PC f (thread_src c t os).
-  Proof.
-    unfold thread_src. apply PC_act; [apply qa_begin|intros _]. unfold to_unit. apply PC_bind; [apply pc_run_ops|intros _; apply PC_ret].
-  Qed.
 End Progs2.
